@@ -23,7 +23,10 @@ package dagsync
 //@   at call setLatestSync#1: assert arg1 == h.peerID && arg2 == c
 
 // Close runs the shutdown sequence exactly once.
-//@ spec func subOK(s val) bool = s != nil && s.closing != nil && s.inEvents != nil && s.addEventChan != nil && s.rmEventChan != nil && s.httpPeerstore != nil && s.handlers != nil && all(k, has(s.handlers, k) ==> s.handlers[k] != nil && s.handlers[k].subscriber == s && str(s.handlers[k].peerID) == k && !held(s.handlers[k].syncMutex) && !held(s.handlers[k].asyncMutex)) && !closed(s.addEventChan) && !closed(s.rmEventChan) && s.closing != s.inEvents && (closed(s.inEvents) ==> closed(s.closing)) && s.scopedBlockHook != nil && s.scopedBlockHookMutex != nil && (s.receiver != nil ==> s.watchDone != nil && recvOK(s.receiver) && s.receiver.outChan != s.closing && s.receiver.done != s.closing && s.receiver.done != s.inEvents && (s.receiver.cancelWatch != nil ==> s.receiver.watchDone != nil) && (s.receiver.cancelPubsub != nil ==> s.receiver.topic != nil))
+//@ spec func subOK(s val) bool = s != nil && s.closing != nil && s.inEvents != nil && s.addEventChan != nil && s.rmEventChan != nil && s.httpPeerstore != nil && s.handlers != nil && all(k, has(s.handlers, k) ==> s.handlers[k] != nil && s.handlers[k].subscriber == s && str(s.handlers[k].peerID) == k) && !closed(s.addEventChan) && !closed(s.rmEventChan) && s.closing != s.inEvents && (closed(s.inEvents) ==> closed(s.closing)) && s.scopedBlockHook != nil && s.scopedBlockHookMutex != nil && (s.receiver != nil ==> s.watchDone != nil && recvOK(s.receiver) && s.receiver.outChan != s.closing && s.receiver.done != s.closing && s.receiver.done != s.inEvents && (s.receiver.cancelWatch != nil ==> s.receiver.watchDone != nil) && (s.receiver.cancelPubsub != nil ==> s.receiver.topic != nil))
+
+// No per-publisher mutex is held by the calling thread (API-boundary fact of explicit entry points).
+//@ spec func handlersFree(s val) bool = all(k, has(s.handlers, k) ==> !held(s.handlers[k].syncMutex) && !held(s.handlers[k].asyncMutex))
 
 //@ func (*Subscriber).Close
 //@   property C15
@@ -145,7 +148,8 @@ package dagsync
 //@   property C08
 //@   requires subOK(s) && !held(s.handlersMutex)
 //@   modifies mapof(s.handlers), objects(handler)
-//@   ensures result != nil && result.subscriber == s && result.peerID == peerID && !held(result.syncMutex) && !held(result.asyncMutex)
+//@   ensures result != nil && result.subscriber == s && result.peerID == peerID
+//@   ensures old(handlersFree(s)) ==> !held(result.syncMutex) && !held(result.asyncMutex) && handlersFree(s)
 //@   ensures subOK(s)
 
 //@ func (*Subscriber).GetLatestSync
@@ -190,7 +194,7 @@ package dagsync
 // released on every return.
 //@ func (*Subscriber).SyncAdChain
 //@   property C01 C04 C15 C03
-//@   requires subOK(s) && ctx != nil && !held(s.expSyncMutex) && !held(s.handlersMutex) && !held(s.scopedBlockHookMutex)
+//@   requires subOK(s) && handlersFree(s) && ctx != nil && !held(s.expSyncMutex) && !held(s.handlersMutex) && !held(s.scopedBlockHookMutex)
 //@   requires !s.expSyncClosed ==> !closed(s.inEvents)
 //@   ghost rlScoped := zero("selector.RecursionLimit")
 //@   ghost rlFirst := zero("selector.RecursionLimit")
@@ -241,6 +245,7 @@ package dagsync
 //@   requires h.subscriber.receiver != nil ==> !held(h.subscriber.receiver.announceMutex)
 //@   assumes str(cid.Undef.str) == str("")
 //@   mayblock send:inEvents
+//@   modifies h.pendingMsg, h.syncer, mapof(h.subscriber.scopedBlockHook), h.subscriber.latestSyncHandler, state(h.subscriber.receiver)
 //@   ghost taken := zero("*announce.Announce")
 //@   ghost latest := zero("ipld.Link")
 //@   ghost rlFirst := zero("selector.RecursionLimit")
@@ -277,6 +282,7 @@ package dagsync
 //@   requires hnd != nil && subOK(s) && hnd.subscriber == s && ctx != nil && !held(hnd.asyncMutex) && !held(hnd.syncMutex) && !held(s.scopedBlockHookMutex) && !closed(s.inEvents)
 //@   requires s.receiver != nil ==> !held(s.receiver.announceMutex)
 //@   requires s.syncSem != nil ==> !closed(s.syncSem)
+//@   requires wg(s.asyncWG) >= 1
 //@   mayblock
 //@   at call asyncSyncAdChain#1: assert held(hnd.asyncMutex)
 //@   ensures-local count("call:asyncSyncAdChain") == 1 && count("wg.done:asyncWG") == 1 && before("call:asyncSyncAdChain", "wg.done:asyncWG")
@@ -297,7 +303,7 @@ package dagsync
 //@   ensures-local count("close:watchDone") == 1
 
 // The cancel function of a listener: idempotent, and never blocks once the subscriber is closing.
-//@ func (*Subscriber).OnSyncFinished$1
+//@ func (*Subscriber).OnSyncFinished$2
 //@   property C14 C15
 //@   requires s != nil && s.rmEventChan != nil && s.closing != nil && !closed(s.rmEventChan)
 //@   shutdown closing
@@ -307,7 +313,7 @@ package dagsync
 // Entries syncs follow the same shutdown protocol as SyncAdChain (C15) and fail without side effects (C04).
 //@ func (*Subscriber).syncEntries
 //@   property C15 C04 C01
-//@   requires subOK(s) && ctx != nil && !held(s.expSyncMutex) && !held(s.handlersMutex) && !held(s.scopedBlockHookMutex)
+//@   requires subOK(s) && handlersFree(s) && ctx != nil && !held(s.expSyncMutex) && !held(s.handlersMutex) && !held(s.scopedBlockHookMutex)
 //@   assumes str(cid.Undef.str) == str("")
 //@   at call handle#1: assert arg2 == entCid && arg3 == sel && arg5 == bh && arg6 == segdl && str(arg7.str) == str("")
 //@   ensures-local entCid != cid.Undef && old(s.expSyncClosed) ==> result != nil && count("wg.add:expSyncWG") == 0 && count("call:handle") == 0
